@@ -16,6 +16,8 @@ pub struct CatchState {
 /// A `TermLike` that records the payload of every write.
 #[derive(Clone)]
 pub struct LineCatcher {
+    /// the next flush fails once
+    pub fail_flush: Arc<std::sync::atomic::AtomicBool>,
     pub w: Arc<std::sync::atomic::AtomicU16>,
     pub h: u16,
     pub st: Arc<Mutex<CatchState>>,
@@ -29,7 +31,7 @@ impl std::fmt::Debug for LineCatcher {
 
 impl LineCatcher {
     pub fn new(w: u16) -> Self {
-        LineCatcher { w: Arc::new(std::sync::atomic::AtomicU16::new(w)), h: 1000, st: Arc::new(Mutex::new(CatchState::default())) }
+        LineCatcher { fail_flush: Arc::new(std::sync::atomic::AtomicBool::new(false)), w: Arc::new(std::sync::atomic::AtomicU16::new(w)), h: 1000, st: Arc::new(Mutex::new(CatchState::default())) }
     }
     pub fn resize(&self, w: u16) {
         self.w.store(w, std::sync::atomic::Ordering::Relaxed);
@@ -79,6 +81,9 @@ impl TermLike for LineCatcher {
         Ok(())
     }
     fn flush(&self) -> io::Result<()> {
+        if self.fail_flush.swap(false, std::sync::atomic::Ordering::Relaxed) {
+            return Err(io::Error::new(io::ErrorKind::Other, "injected"));
+        }
         Ok(())
     }
 }
